@@ -331,7 +331,10 @@ class Executor(object):
                 path.ghosts['w:' + name] = w
             return S[w]
         if sv.ty in ('reflist', 'refset'):
-            return hp.nonemptyR(path.heap['refsets'][sv.t])
+            S = path.heap['refsets'][sv.t]
+            xr = z3.Int('x!tr')
+            path.pc.append(z3.ForAll([xr], z3.Implies(S[xr], hp.nonemptyR(S)), patterns=[S[xr]]))
+            return hp.nonemptyR(S)
         if sv.ty == 'none':
             return z3.BoolVal(False)
         if sv.ty == 'int':
